@@ -510,7 +510,7 @@ class ResourceInterrupted(RCBase):
 class ResourcePeriodicallyInterrupted(RCBase):
     target = "resource_constraint.ResourcePeriodicallyInterrupted.__init__"
     bounded = "period in {4,6} (quick) / {3..7} (thorough), one interruption per period, one task; other integers symbolic"
-    task_sets = (("Fm",), ("Fo",), ("Vm",), ("Vo",))
+    task_sets = (("Fm",), ("Fo",), ("Vm",), ("Vo",), ("Fm", "Fm"))
     thorough_task_sets = ()
 
     def extra_cases(self, tier):
